@@ -283,10 +283,10 @@ def summary_values(df):
         for v in r.tolist():
             if isinstance(v, (pd.Timestamp, np.datetime64)):
                 row.append(pd.Timestamp(v).isoformat())
-            elif isinstance(v, (np.floating, float)):
-                row.append(float(v).hex())
-            elif isinstance(v, (np.integer, int)):
-                row.append(int(v))
+            elif isinstance(v, (np.integer, int)) and not isinstance(v, bool) and len(row) in (0, 3):
+                row.append(int(v))          # season index / harvest step
+            elif isinstance(v, (np.floating, float, np.integer, int)) and not isinstance(v, bool):
+                row.append(float(v).hex())  # a number is a number (0 == 0.0)
             else:
                 row.append(str(v))
         out.append(row)
